@@ -159,6 +159,13 @@ theorem map_flatten_of_hom (f : Table → Table) (h0 : f [] = []) (happ : ∀ a 
   | nil => simp [h0]
   | cons b bs ih => simp [happ, ih]
 
+theorem rowwise_run (f : Table → Table) (h0 : f [] = []) (happ : ∀ a b, f (a ++ b) = f a ++ f b)
+    (parts : List Table) : runBatched (rowwiseProc f) parts = f parts.flatten := by
+  show (if (rowwiseProc f).twoPass then _ else (pass (rowwiseProc f) (!(rowwiseProc f).bottleneck) (rowwiseProc f).init parts).2).flatten = _
+  rw [show (rowwiseProc f).twoPass = false from rfl, show (rowwiseProc f).bottleneck = false from rfl]
+  simp only [Bool.false_eq_true, ↓reduceIte, Bool.not_false]
+  rw [show (rowwiseProc f).init = () from rfl, rowwise_pass, map_flatten_of_hom f h0 happ]
+
 theorem dropEmpty_append (a b : Table) : dropEmpty (a ++ b) = dropEmpty a ++ dropEmpty b := by
   simp [dropEmpty]
 
